@@ -103,6 +103,8 @@ package decoder
 //@   assert before attrValueCompletionAtPos#2 : [C08] implies(schema.ActiveSelfRefsFromContext(arg1), bodySchema.Extensions != nil && bodySchema.Extensions.SelfRefs)
 //@   assert before attrValueCompletionAtPos#3 : [C08] implies(schema.ActiveSelfRefsFromContext(arg1), bodySchema.Extensions != nil && bodySchema.Extensions.SelfRefs)
 //@   assert before attrValueCompletionAtPos#4 : [C08] implies(schema.ActiveSelfRefsFromContext(arg1), bodySchema.Extensions != nil && bodySchema.Extensions.SelfRefs)
+//@   assert before bodySchemaCandidates#1 : [C07,C06] arg4.End == pos && arg4.Start.Byte <= pos.Byte && arg4.Start == attr.NameRange.Start
+//@   assert before bodySchemaCandidates#2 : [C07,C06] arg4.End == pos && arg4.Start.Byte <= pos.Byte && arg4.Start == block.TypeRange.Start
 
 // ---- C06: the candidate limit and the 'complete' flag of value completion
 //@ contract (*decoder.PathDecoder).candidatesFromHooks (d, ctx, attr, aSchema, outerBodyRng, pos) (result)
@@ -138,7 +140,7 @@ package decoder
 // ---- it is for the completed label index, matches the prefix and was not offered before, and it is then recorded.
 //@ contract (*decoder.PathDecoder).labelCandidatesFromDependentSchema (d, idx, db, prefixRng, editRng, block, labelSchemas) (result, err)
 //@   requires block != nil
-//@   loop 2 iter [C07] (len(candidates.List) == old(len(candidates.List)) + 1) == (label.Index == idx && (len(prefix) == 0 || strings.HasPrefix(label.Value, string(prefix))) && !old(haskey(foundCandidateNames, label.Value)))
+//@   loop 2 iter [C07,C16] (len(candidates.List) == old(len(candidates.List)) + 1) == (label.Index == idx && (len(prefix) == 0 || strings.HasPrefix(label.Value, string(prefix))) && !old(haskey(foundCandidateNames, label.Value)))
 //@   loop 2 iter [C07] len(candidates.List) == old(len(candidates.List)) || len(candidates.List) == old(len(candidates.List)) + 1
 //@   loop 2 iter [C07] implies(len(candidates.List) > old(len(candidates.List)), haskey(foundCandidateNames, label.Value))
 
@@ -281,10 +283,14 @@ package decoder
 //@ contract (decoder.Tuple).CompletionAtPos (tuple, ctx, pos) (result)
 //@   assert before decoder.newExpression#2 : [C08] arg1 == elemExpr && arg2 == tuple.cons.Elems[i]
 //@   assert before decoder.newExpression#3 : [C08] arg1 == elemExpr && arg2 == tuple.cons.Elems[i]
+//@   loop 2 iter [C08] lastElemIdx == rangeindex
+//@   assert before decoder.newExpression#4 : [C08] arg2 == tuple.cons.Elems[nextIdx] && (nextIdx == len(eType.Exprs) || nextIdx == 0 || nextIdx == lastElemIdx + 1)
 //@   loop 2 iter [C08] elemExpr.Range().Start.Byte <= pos.Byte && !(elemExpr.Range().ContainsPos(pos) || elemExpr.Range().End.Byte == pos.Byte)
 //@ contract (decoder.functionExpr).CompletionAtPos (fe, ctx, pos) (result)
 //@   loop 1 invariant [C06,C08,claim] lastArgExpr == nil || lastArgExpr.Range().Start.Byte <= pos.Byte
 //@   assert before invoke:CompletionAtPos#2 : [C06,C08] elemExpr.Range().Start.Byte <= pos.Byte || elemExpr.Range().End.Byte == pos.Byte
+//@   assert before decoder.newExpression#1 : [C08] as(arg2, "schema.AnyExpression").OfType == ite(i < paramsLen, f.Params[i].Type, f.VarParam.Type)
+//@   assert before decoder.newExpression#2 : [C08] as(arg2, "schema.AnyExpression").OfType == ite(activePar < paramsLen, f.Params[activePar].Type, f.VarParam.Type)
 //@   loop 1 iter [C08] arg.Range().Start.Byte <= pos.Byte && !(arg.Range().ContainsPos(pos) || arg.Range().End.Byte == pos.Byte)
 
 // ---- C10/C12/C13: the i-th element of a tuple is interpreted with the i-th element constraint.
@@ -310,3 +316,95 @@ package decoder
 //@   assert before decoder.newExpression#1 : [C09] arg2 == obj.cons.Attributes[name].Constraint && implies(attrDeclared, arg1 == declaredAttrs[name].Value)
 //@   assert before invoke:ReferenceTargets#2 : [C09] extendsByOne(arg1.ParentAddress, targetCtx.ParentAddress)
 //@   assert before invoke:ReferenceTargets#2 : [C09,C02] implies(attrDeclared, arg1.ParentDefRangePtr != nil && *arg1.ParentDefRangePtr == item.Key.Range() && arg1.ParentRangePtr != nil && *arg1.ParentRangePtr == hcl.RangeBetween(item.Key.Range(), item.Value.Range()))
+
+// ---- C08: the parameter an argument is completed against is the positional one while there is one, the
+// ---- variadic one only behind them; the tuple slot completed after a comma is the one behind the last
+// ---- element written before the cursor.
+
+// ---- C10/C13: arguments of a known function are visited whenever the function takes any parameter, fixed
+// ---- or variadic (a return in front of the argument loop - where the loop counter does not exist yet - is
+// ---- allowed only for parameterless functions); argument i is read against parameter i, or the variadic one.
+//@ contract (decoder.functionExpr).ReferenceOrigins (fe, ctx) (result)
+//@   ensures [C10] implies(haskey(fe.pathCtx.Functions, funcExpr.Name) && (len(funcSig.Params) > 0 || funcSig.VarParam != nil), rangeindex == rangeindex)
+//@   assert before (decoder.Any).ReferenceOrigins#1 : [C10] arg0.expr == arg && arg0.cons.OfType == ite(i < paramsLen, funcSig.Params[i].Type, funcSig.VarParam.Type)
+//@ contract (decoder.functionExpr).SemanticTokens (fe, ctx) (result)
+//@   ensures [C13] implies(haskey(fe.pathCtx.Functions, funcExpr.Name) && (len(funcSig.Params) > 0 || funcSig.VarParam != nil), rangeindex == rangeindex)
+
+// ---- C10/C13: a handled for / conditional expression has every one of its sub-expressions visited, each as
+// ---- the expression it is (ghosts are true only if their call site was reached).
+//@ spec forOf(e hcl.Expression) *hclsyntax.ForExpr = as(e, "*hclsyntax.ForExpr")
+//@ spec condOf(e hcl.Expression) *hclsyntax.ConditionalExpr = as(e, "*hclsyntax.ConditionalExpr")
+//@ contract (decoder.Any).refOriginsForForExpr (a, ctx) (result, handled)
+//@   ghost sawColl after decoder.newExpression#1 : true
+//@   ghost sawKey after decoder.newExpression#2 : true
+//@   ghost sawVal after decoder.newExpression#3 : true
+//@   ghost sawCond after decoder.newExpression#4 : true
+//@   assert before decoder.newExpression#1 : [C10] arg1 == eType.CollExpr
+//@   assert before decoder.newExpression#2 : [C10] arg1 == eType.KeyExpr
+//@   assert before decoder.newExpression#3 : [C10] arg1 == eType.ValExpr
+//@   assert before decoder.newExpression#4 : [C10] arg1 == eType.CondExpr
+//@   ensures [C10] implies(handled && typeis(a.expr, "*hclsyntax.ForExpr"), sawColl && sawVal && (forOf(a.expr).KeyExpr == nil || sawKey) && (forOf(a.expr).CondExpr == nil || sawCond))
+//@ contract (decoder.Any).semanticTokensForForExpr (a, ctx) (result, handled)
+//@   ghost sawColl after decoder.newExpression#1 : true
+//@   ghost sawKey after decoder.newExpression#2 : true
+//@   ghost sawVal after decoder.newExpression#3 : true
+//@   ghost sawCond after decoder.newExpression#4 : true
+//@   assert before decoder.newExpression#1 : [C13] arg1 == eType.CollExpr
+//@   assert before decoder.newExpression#2 : [C13] arg1 == eType.KeyExpr
+//@   assert before decoder.newExpression#3 : [C13] arg1 == eType.ValExpr
+//@   assert before decoder.newExpression#4 : [C13] arg1 == eType.CondExpr
+//@   ensures [C13] implies(handled && typeis(a.expr, "*hclsyntax.ForExpr"), sawColl && sawVal && (forOf(a.expr).KeyExpr == nil || sawKey) && (forOf(a.expr).CondExpr == nil || sawCond))
+//@ contract (decoder.Any).refOriginsForConditionalExpr (a, ctx) (result, handled)
+//@   ghost sawC after decoder.newExpression#1 : true
+//@   ghost sawT after decoder.newExpression#2 : true
+//@   ghost sawF after decoder.newExpression#3 : true
+//@   assert before decoder.newExpression#1 : [C10] arg1 == eType.Condition
+//@   assert before decoder.newExpression#2 : [C10] arg1 == eType.TrueResult
+//@   assert before decoder.newExpression#3 : [C10] arg1 == eType.FalseResult
+//@   ensures [C10] implies(handled, sawC && sawT && sawF)
+//@ contract (decoder.Any).semanticTokensForConditionalExpr (a, ctx) (result, handled)
+//@   ghost sawC after decoder.newExpression#1 : true
+//@   ghost sawT after decoder.newExpression#2 : true
+//@   ghost sawF after decoder.newExpression#3 : true
+//@   assert before decoder.newExpression#1 : [C13] arg1 == eType.Condition
+//@   assert before decoder.newExpression#2 : [C13] arg1 == eType.TrueResult
+//@   assert before decoder.newExpression#3 : [C13] arg1 == eType.FalseResult
+//@   ensures [C13] implies(handled, sawC && sawT && sawF)
+
+// ---- C11: find-references asks every path for the origins that, seen from THAT path, point at the target
+// ---- declared in the queried path; each reported origin carries the path it was found in.
+//@ contract (*decoder.Decoder).ReferenceOriginsTargetingPos (d, path, file, pos) (result)
+//@   assert before (reference.Origins).Match#1 : [C11] arg0 == pathCtx.ReferenceOrigins && arg1 == p && arg2 == target && arg3 == path
+//@   loop 3 iter [C11] len(origins) == old(len(origins)) + 1 && origins[len(origins)-1].Path == p && origins[len(origins)-1].Range == origin.OriginRange()
+
+// ---- C09: count.index and each.* exist only in bodies whose schema enables the corresponding extension.
+//@ contract (*decoder.PathDecoder).decodeReferenceTargetsForBody (d, body, parentBlock, bodySchema) (result)
+//@   assert before decoder.countIndexReferenceTarget#1 : [C09] bodySchema.Extensions != nil && bodySchema.Extensions.Count && attr.Name == "count"
+//@   assert before decoder.forEachReferenceTargets#1 : [C09] bodySchema.Extensions != nil && bodySchema.Extensions.ForEach && attr.Name == "for_each"
+
+// ---- C13/C10: a literal written for a collection type is read with the element type of that type (list,
+// ---- set and map), and a tuple with one constraint per element type.
+//@ spec elemTypeOf(c schema.Constraint) cty.Type = as(c, "schema.AnyExpression").OfType
+//@ contract (decoder.Any).SemanticTokens (a, ctx) (result)
+//@   assert before decoder.newExpression#1 : [C13] elemTypeOf(as(arg2, "schema.List").Elem) == typ.ElementType()
+//@   assert before decoder.newExpression#2 : [C13] elemTypeOf(as(arg2, "schema.Set").Elem) == typ.ElementType()
+//@   assert before decoder.newExpression#3 : [C13] len(as(arg2, "schema.Tuple").Elems) == len(typ.TupleElementTypes())
+//@   assert before decoder.newExpression#4 : [C13] elemTypeOf(as(arg2, "schema.Map").Elem) == typ.ElementType()
+//@ contract (decoder.Any).CompletionAtPos (a, ctx, pos) (result)
+//@   assert before decoder.newExpression#1 : [C08] elemTypeOf(as(arg2, "schema.List").Elem) == typ.ElementType()
+//@   assert before decoder.newExpression#2 : [C08] elemTypeOf(as(arg2, "schema.Set").Elem) == typ.ElementType()
+//@   assert before decoder.newExpression#3 : [C08] len(as(arg2, "schema.Tuple").Elems) == len(typ.TupleElementTypes())
+//@   assert before decoder.newExpression#4 : [C08] elemTypeOf(as(arg2, "schema.Map").Elem) == typ.ElementType()
+//@ contract (decoder.Any).HoverAtPos (a, ctx, pos) (result)
+//@   requires [C12] a.expr.Range().ContainsPos(pos)
+//@   ensures [C12] result == nil || (result.Range.ContainsPos(pos) && len(result.Content.Value) > 0)
+//@   assert before decoder.newExpression#1 : [C12] elemTypeOf(as(arg2, "schema.List").Elem) == typ.ElementType()
+//@   assert before decoder.newExpression#2 : [C12] elemTypeOf(as(arg2, "schema.Set").Elem) == typ.ElementType()
+//@   assert before decoder.newExpression#3 : [C12] len(as(arg2, "schema.Tuple").Elems) == len(typ.TupleElementTypes())
+//@   assert before decoder.newExpression#4 : [C12] elemTypeOf(as(arg2, "schema.Map").Elem) == typ.ElementType()
+
+// ---- C02/C06: literal value candidates carry an edit range that is well formed and starts at or before the
+// ---- cursor.
+//@ spec editOK(c lang.Candidate, pos hcl.Pos) bool = c.TextEdit.Range.Start.Byte <= c.TextEdit.Range.End.Byte && c.TextEdit.Range.Start.Byte <= pos.Byte
+//@ contract (decoder.LiteralValue).CompletionAtPos (lv, ctx, pos) (result)
+//@   ensures [C02,C06] implies(typ != cty.Bool, forall(i, 0, len(result), editOK(result[i], pos)))
